@@ -65,6 +65,7 @@ PROPS = {
             f"{MAT}._calc_target_power#c04",
             f"{MAT}.get_status",
             f"{MAT}.get_status#c04",
+            f"{MAT}.calculate_target_power",
             f"{PM}._base_classes:_Report.adjust_to_bounds",
             "frequenz.sdk.timeseries.battery_pool._battery_pool:BatteryPool.propose_power",
         ],
@@ -75,7 +76,9 @@ PROPS = {
                     "priority's bounds, carve the exclusion zone) and T (running target: nearest usable value to the latest "
                     "stated preference) - are proved to be what BOTH sweeps compute (loop invariants over any number of "
                     "proposals): _calc_target_power returns T(n), get_status(priority) reports exactly G(k) for k = number "
-                    "of strictly higher proposals, and adjust_to_bounds is clamp_to_bounds on that range.",
+                    "of strictly higher proposals, and adjust_to_bounds is clamp_to_bounds on that range. calculate_target_power "
+                    "(C03's contract) keeps the bucket both sweeps read at (bucket minus same key) + the proposal, so a "
+                    "higher-priority proposal cannot be dropped on its way in.",
         assumptions=[REALS, EXTRACTION,
                      "regime: proved for conflict-free proposal sets (C04's quantifier) with the exclusion zone inside "
                      "the inclusion range (documented SystemBounds invariant)"],
@@ -116,7 +119,10 @@ PROPS = {
                   + [f"{FEV}:FormulaEvaluator.apply#c13"],
         lemmas=[],
         bounded=[dict(kind="native_script", name="whole expressions: output None iff a needed input is missing or the result is undefined",
-                      module="native.explore_formulas")],
+                      module="native.explore_formulas"),
+                 dict(kind="native_script", name="missing values in time on the real FormulaEngine: streams starting at different steps, "
+                                                 "one None sample; output None exactly when an input of its own timestamp is missing",
+                      module="native.explore_evaluator")],
         level="proof",
         explanation="Every formula step's apply() is verified in IEEE-754 binary64 (z3 FloatingPoint theory, python's max/min "
                     "and ZeroDivisionError semantics): a NaN operand in either position gives NaN, no step raises on any float "
